@@ -39,6 +39,7 @@ fn real_main() -> i32 {
             let mut e = caoverif::e_gc::GcEngine::new(san, opts.x_u64("max-singles", 400) as usize);
             run_engine(&mut e, &opts)
         }
+        "bytecode" => run_engine(&mut caoverif::e_bytecode::BytecodeEngine {}, &opts),
         other => {
             eprintln!("unknown engine {other}");
             64
